@@ -199,9 +199,21 @@ def parseSignMag (s : String) : Option (Bool × Nat) :=
 
 def enumNames : List String := ["red", "green", "blue"]
 
-/-- `extract_from_string<Type>`; the text is assumed free of white space (argument of a command line token) -/
-def convert : VTy → String → Option Val
-  | .str, s => if s = "" then none else some (.str s)
+/-- `std::isspace` in the classic locale (what `operator>>` skips / stops at) -/
+def isSpace (c : Char) : Bool := c = ' ' || c = '\t' || c = '\n' || c = '\x0b' || c = '\x0c' || c = '\r'
+
+/-- what one formatted extraction sees of the text: leading white space is skipped, the word runs up to the next white
+space; `none` when no word is there (the extraction fails) or when something follows the word (`peek() != eof`: "the
+string has to be consumed completely") -/
+def wordOf (s : String) : Option String :=
+  let body := s.toList.dropWhile isSpace
+  let word := body.takeWhile (fun c => !isSpace c)
+  let rest := body.dropWhile (fun c => !isSpace c)
+  if word.isEmpty || !rest.isEmpty then none else some (String.ofList word)
+
+/-- the conversion of one word (no white space inside) -/
+def convertWord : VTy → String → Option Val
+  | .str, s => some (.str s)
   | .int, s => match parseSignMag s with
     | some (true, m) => if m ≤ 2147483648 then some (.int (-(m : Int))) else none
     | some (false, m) => if m ≤ 2147483647 then some (.int m) else none
@@ -212,6 +224,13 @@ def convert : VTy → String → Option Val
   | .enm, s => match enumNames.idxOf? s with
     | some i => some (.enm i)
     | none => none
+
+/-- `extract_from_string<Type>`: `operator>>` (skips leading white space, reads one word), then the whole text must have
+been consumed -/
+def convert (ty : VTy) (s : String) : Option Val :=
+  match wordOf s with
+  | none => none
+  | some w => convertWord ty w
 
 /-! ## texts: usage strings and error messages -/
 
